@@ -8,6 +8,12 @@ import re
 manifest = json.load(open(os.path.join(VERIF, "MANIFEST.json")))
 claimed = [c["property_id"] for c in manifest["checks"]]
 res = {}
+_rp = os.path.join(VERIF, "seeded", "results.json")
+if os.path.exists(_rp):
+    try:
+        res = json.load(open(_rp))
+    except Exception:
+        res = {}
 assert subprocess.run("git -C /repo status --porcelain --untracked-files=no", shell=True, capture_output=True, text=True).stdout.strip() == "", "/repo not clean"
 for sid in sorted(os.listdir(os.path.join(VERIF, "seeded"))):
     d = os.path.join(VERIF, "seeded", sid)
